@@ -122,3 +122,40 @@ Proof.
   split; [exact A|]. rewrite B. destruct (nth_error (points p) (S i)); auto.
 Qed.
 
+(* ---------------------------------------------------------------- the hypotheses are satisfiable *)
+Definition ex_ops : list op :=
+  [OAdd (1, 0) (Some 0) (Some 4); OAdd (2, 1) (Some 4) (Some 8); OAdd (3, 2) (Some 4) (Some 4);
+   OSetQ 4 2; OAdd (22, 3) (Some 8) (Some 12); OGetOrAdd 4; ORemove (3, 2) WStart; OSetQ 4 1].
+
+Lemma ex_valid : valid_run (init 1) ex_ops /\ strict_run (init 1) ex_ops.
+Proof.
+  split.
+  - unfold ex_ops.
+    repeat (split; [first [exact I | (unfold valid_op; lia)
+                          | (split; intros t E; inversion E; subst; (split; [lia | vm_compute; reflexivity]))]|]).
+    exact I.
+  - unfold ex_ops. repeat (split; [first [exact I | (vm_compute; discriminate)]|]). exact I.
+Qed.
+
+Lemma inv_nontrivial_lemma :
+  Inv (run (init 1) ex_ops) /\
+  map (fun q => (pt q, pq q, pprev q, pnext q, List.length (pstart q), List.length (pend q))) (points (run (init 1) ex_ops))
+  = [(0, 1, None, Some 4, 1%nat, 0%nat); (4, 1, Some 0, Some 8, 1%nat, 2%nat);
+     (8, 1, Some 4, Some 12, 1%nat, 1%nat); (12, 1, Some 8, None, 0%nat, 1%nat)] /\
+  qtab (run (init 1) ex_ops) = [(0, 1); (4, 1)].
+Proof.
+  split; [apply run_inv_lemma; [apply inv_init_lemma | apply ex_valid | apply ex_valid]|].
+  vm_compute. auto.
+Qed.
+
+(* ---------------------------------------------------------------- from a new part *)
+Lemma reachable_inv_lemma q0 ops :
+  valid_run (init q0) ops -> strict_run (init q0) ops -> Inv (run (init q0) ops).
+Proof. exact (run_inv_lemma ops (init q0) (inv_init_lemma q0)). Qed.
+
+Lemma reachable_invw_lemma q0 ops : valid_run (init q0) ops -> InvW (run (init q0) ops).
+Proof. exact (run_invw_lemma ops (init q0) (proj1 (inv_init_lemma q0))). Qed.
+
+Lemma reachable_total_lemma q0 ops : valid_run (init q0) ops ->
+  forall pre o post, ops = pre ++ o :: post -> snd (step (run (init q0) pre) o) = OutOk.
+Proof. intros V. exact (run_total_lemma ops (init q0) (proj1 (inv_init_lemma q0)) V). Qed.
